@@ -23,6 +23,9 @@ def replay_history(writer, blocked, lengths, fins):
         if k == 0:
             snap = f.getvalue()
     final = f.getvalue()
+    if blocked:
+        if len(final) % 1014 or any(final[j + 1012:j + 1014] != b'@@' for j in range(0, len(final), 1014)):
+            return True, 'finalised blocked file of %d bytes is not valid 1014 form' % len(final), 'C11/blocked-form'
     f.seek(0)
     try:
         got = list((mciipm.VbsReader if writer == 'vbs' else mciipm.IpmReader)(f, blocked=blocked))
